@@ -17,11 +17,14 @@ from datetime import date, datetime, timedelta, timezone
 
 import dateutil.rrule as DR
 
+import os
+
 from mc import env  # noqa: F401
 from icalendar.prop import vRecur, vMonth, vWeekday, vInt
 from icalendar.cal import Event
 from icalendar.timezone import tzp
 
+_UNIQ = [0]
 FREQS = ("SECONDLY", "MINUTELY", "HOURLY", "DAILY", "WEEKLY", "MONTHLY", "YEARLY")
 UTC = timezone.utc
 PARTS = {
@@ -343,6 +346,19 @@ def run_history(case):
     def decode():
         if path == "codec":
             return vRecur.from_ical(text)
+        if path.startswith("observance"):
+            # the rule of an observance of a VTIMEZONE the provider has never seen: reading the calendar also converts
+            # the definition into a time zone object - the rule held by the parsed tree is still the rule of the text
+            from icalendar.cal import Calendar
+            _UNIQ[0] += 1
+            tzid = f"Custom/C19-{os.getpid()}-{_UNIQ[0]}"
+            env.use_provider(path.split(":")[1])
+            cal = Calendar.from_ical("\r\n".join([
+                "BEGIN:VCALENDAR", "BEGIN:VTIMEZONE", f"TZID:{tzid}", "BEGIN:DAYLIGHT", "DTSTART:19700329T020000", "TZOFFSETFROM:+0100",
+                "TZOFFSETTO:+0200", "TZNAME:XDT", f"RRULE:{text}", "END:DAYLIGHT", "BEGIN:STANDARD", "DTSTART:19701025T030000",
+                "TZOFFSETFROM:+0200", "TZOFFSETTO:+0100", "TZNAME:XST", f"RRULE:{text}", "END:STANDARD", "END:VTIMEZONE",
+                "BEGIN:VEVENT", f"DTSTART;TZID={tzid}:20240601T100000", "END:VEVENT", "END:VCALENDAR", ""]))
+            return cal.walk("STANDARD")[0]["RRULE"]
         ev = Event.from_ical(f"BEGIN:VEVENT\r\nUID:h\r\nRRULE:{text}\r\nEND:VEVENT\r\n")
         return ev["RRULE"]
 
@@ -374,10 +390,15 @@ def run_history(case):
         got3 = decoded_atoms(third)
         if got3 != want and got == want:
             fails.append(fail("history:third-decode-differs", case, want, got3))
+    except ValueError as e:
+        if not path.startswith("observance"):
+            fails.append(fail("history:raises", case, "decoded rules", f"{type(e).__name__}: {e}"))
+        else:  # a definition the provider cannot convert is refused as a whole (C04/C12 judge that)
+            seen.append("definition-refused")
     except Exception as e:  # noqa: BLE001
         fails.append(fail("history:raises", case, "decoded rules", f"{type(e).__name__}: {e}"))
     return {"state": ("hist", path, text, mutation, repr(seen)), "trans": trans, "nontrivial": len(supplied) > 1,
-            "outcome": "hist-ok" if not fails else "hist-FAIL", "fails": fails}
+            "outcome": ("hist-definition-refused" if "definition-refused" in seen else "hist-ok") if not fails else "hist-FAIL", "fails": fails}
 
 
 def emit_rules(first):
@@ -427,7 +448,7 @@ def run(ctx):
     ctx.rule = (f"E-enum: 7 FREQ x every subset of <={j} of 16 optional rule parts x every menu value (2-5 per part: single, "
                 "multiple, negative, ordinal weekdays, leap month, RSCALE/SKIP, X-part, UNTIL as date/floating/UTC) x key "
                 "case {upper, lower} x value shape {scalar, list} x construction {keywords, positional mapping, item "
-                "assignment in reverse order, Event.add, item assignment of bytes scalars}. E-hist: decode / mutate-in-place (8 mutations) / decode histories over every rule with <=1 (thorough 2) optional parts, codec and component path. non-trivial = at least one optional part.")
+                "assignment in reverse order, Event.add, item assignment of bytes scalars}. E-hist: decode / mutate-in-place (8 mutations) / decode histories over every rule with <=1 (thorough 2) optional parts, codec and component path; the same for YEARLY rules (<=2 of 7 parts) standing in both observances of a VTIMEZONE with a never-seen TZID, under both providers (reading converts the definition on the side). non-trivial = at least one optional part.")
     ctx.bounds = {"max_optional_parts": j, "parts": {k: len(v) for k, v in PARTS.items()}}
     ctx.assumptions += ["COUNT together with UNTIL, and sub-daily FREQ with date-restricting BY parts, are round-tripped but "
                         "not expanded (dateutil cost / RFC forbids the former)",
@@ -464,6 +485,20 @@ def run(ctx):
                                     yield ("h", path, freq, parts, m, between)
 
     ctx.explore("decode-histories", gen_hist, run_history)
+
+    def gen_obs():
+        safe = ("UNTIL", "COUNT", "INTERVAL", "BYDAY", "BYMONTHDAY", "BYMONTH", "WKST")
+        for n in range(0, 3):
+            for combo in itertools.combinations(safe, n):
+                if "UNTIL" in combo and "COUNT" in combo:
+                    continue
+                for idx in itertools.product(*[range(len(PARTS[p])) for p in combo]):
+                    parts = tuple(zip(combo, idx))
+                    for provider in env.PROVIDERS:
+                        for m in (MUTATIONS[:2] if n == 2 else MUTATIONS):
+                            yield ("h", f"observance:{provider}", "YEARLY", parts, m, 0)
+
+    ctx.explore("rules of an observance in a never-seen VTIMEZONE", gen_obs, run_history)
     # process history: which key-sorting class is used first in a fresh process must not matter
     import os
     import subprocess
